@@ -51,7 +51,7 @@ class C06Layout(Scenario):
         if kind.startswith("cms"):
             cfg.update({"width": rng.choice((2, 3, 5, 8, 50, 200)), "depth": rng.between(1, 6), "free_removes": rng.chance(1, 2)})
         elif kind in ("cuckoo", "ccuckoo"):
-            cfg.update({"capacity": rng.choice((2, 3, 5, 8, 20)), "bucket_size": rng.between(1, 4),
+            cfg.update({"capacity": rng.choice((2, 3, 5, 8, 20)), "bucket_size": rng.choice((1, 2, 3, 4, 4, 9, 12)),
                         "max_swaps": rng.choice((2, 5, 20, 100)), "finger_size": rng.choice((1, 2, 4)),
                         "sseed": rng.below(1 << 30)})
         else:
